@@ -1,6 +1,9 @@
 //! E4: network adversaries over scripted transports, through the `verif` facade of the network crate.
 mod c13;
 mod c14;
+mod c18;
+mod c19;
+mod pool;
 mod transport;
 
 use vcommon::{Args, Report};
@@ -13,6 +16,9 @@ fn main() {
     match (args.prop.as_str(), mode.as_str()) {
         ("C13", _) => c13::run(&args, &mut rep),
         ("C14", _) => c14::run(&args, &mut rep),
+        ("C18", _) => c18::run(&args, &mut rep),
+        ("C19", _) => c19::run(&args, &mut rep),
+        ("C12", "pool") => pool::run(&args, &mut rep),
         (p, m) => panic!("unknown property/mode {p}/{m}"),
     }
     std::process::exit(rep.finish());
